@@ -8,7 +8,9 @@ MUTANTS = [("MC_FairQueue_m1", "insert() does not wake the receiver", "NoLostWak
            ("MC_FairQueue_m3", "stream not put back after Pending", "NoStreamLost"),
            ("MC_FairQueue_m4", "receiver waker stored only when the slot is empty", "NoLostWakeup"),
            ("MC_FairQueue_m5", "every wake-up queues a ready event, also for a stream that is already queued (the code before fix 8512c0f)", "FairBoundTight"),
-           ("MC_FairQueue_m6", "poll_next never gives control back while streams keep waking themselves (the code before fix 634cc7b)", "YieldBound")]
+           ("MC_FairQueue_m6", "poll_next never gives control back while streams keep waking themselves (the code before fix 634cc7b)", "YieldBound"),
+           ("MC_FairQueue_m7", "a polled stream is put back over a newer stream registered under its key meanwhile (the code before the supersede fix)", "NoStreamLost"),
+           ("MC_FairQueue_m8", "re-insert of a registered key queues no ready event", "ReadyHasSignal")]
 REACH = ["MC_FairQueue_r1", "MC_FairQueue_r2", "MC_FairQueue_r3"]
 
 
@@ -16,14 +18,16 @@ def model_checks(chk, which=("safety", "mutants", "reach")):
     tier = chk.tier
     if "safety" in which:
         r = vlib.tlc("FairQueue", "MC_FairQueue_q.cfg", chk.wd, timeout=900, workers=12)
-        chk.model_must_hold(r, "FairQueue 2 peers x 2 items, late/duplicate wake-ups of old waker clones, budget exhaustion (self-waking streams), cancel (exhaustive)", disabled=("Remove",))
+        chk.model_must_hold(r, "FairQueue 2 peers x 2 items, late/duplicate wake-ups of old waker clones, budget exhaustion (self-waking streams), cancel (exhaustive)", disabled=("Remove", "Reinsert"))
         r = vlib.tlc("FairQueue", "MC_FairQueue_qr.cfg", chk.wd, timeout=900)
-        chk.model_must_hold(r, "FairQueue 2 peers x 2 items, remove, cancel (exhaustive)", disabled=("StaleFire", "Exhaust"))
+        chk.model_must_hold(r, "FairQueue 2 peers x 2 items, remove, cancel (exhaustive)", disabled=("StaleFire", "Exhaust", "Reinsert"))
+        r = vlib.tlc("FairQueue", "MC_FairQueue_qx.cfg", chk.wd, timeout=900, workers=12)
+        chk.model_must_hold(r, "FairQueue 2 peers x 2 items, two superseding re-inserts of a registered key at any point incl. while its stream is checked out (exhaustive)", disabled=("StaleFire", "Exhaust", "Remove"))
         if tier == "thorough":
             for cfg, what in (("MC_FairQueue_q2", "2 peers x 2 items, 2 stale wake-ups, exhaustion, remove"), ("MC_FairQueue_t", "3 peers x 2 items"),
                               ("MC_FairQueue_t2", "3 peers x 1 item, stale wake-up, exhaustion")):
                 r = vlib.tlc("FairQueue", cfg + ".cfg", chk.wd, timeout=3000, heap="24g", workers=14)
-                chk.model_must_hold(r, "FairQueue %s (exhaustive)" % what, disabled=() if cfg == "MC_FairQueue_q2" else ("Remove", "StaleFire", "Exhaust") if cfg == "MC_FairQueue_t" else ("Remove",))
+                chk.model_must_hold(r, "FairQueue %s (exhaustive)" % what, disabled=("Reinsert",) if cfg == "MC_FairQueue_q2" else ("Remove", "StaleFire", "Exhaust", "Reinsert") if cfg == "MC_FairQueue_t" else ("Remove", "Reinsert"))
     if "liveness" in which:
         r = vlib.tlc("FairQueue", "MC_FairQueue_live.cfg", chk.wd, timeout=1200, coverage=False, workers=12)
         chk.model_must_hold(r, "FairQueue liveness: readable => eventually delivered, with budget exhaustion (WF receiver, WF wakers)")
@@ -156,6 +160,43 @@ def hostile_env_scripts(rng, n):
     return out
 
 
+def reconnect_scripts(rng, n):
+    """Model-free scripts: a new connection registers under a key that is still in the queue (identity reuse while the old
+    connection is half-open), at rest or inside the unlocked window of a poll (also of that very stream), with the old stream
+    idle / ready / just served; afterwards the new connection's messages must be delivered."""
+    out = []
+    for i in range(n):
+        keys = ["r%d" % j for j in range(1, rng.randint(1, 3) + 1)]
+        s = [{"a": "Insert", "k": k} for k in keys]
+        v = keys[0]
+        mode = i % 4
+        if mode in (0, 1):
+            for k in keys:                      # every stream polled to Pending: events consumed, wakers registered
+                s += [{"a": "Nop"}, {"a": "Poll"}]
+        if mode == 1:
+            s += [{"a": "Produce", "k": v}, {"a": "Wake", "k": v}]      # old connection has an unread message (lost with it)
+        if mode == 2:
+            s += [{"a": "Produce", "k": v}, {"a": "Produce", "k": v}, {"a": "Nop"}, {"a": "Poll"}]   # old stream just served, re-queued
+        if mode == 3 or rng.random() < 0.5:
+            # inside the window of a poll: the op right after Poll runs inside the first stream polled
+            other = rng.choice(keys)
+            s += [{"a": "Produce", "k": other}, {"a": "Wake", "k": other}, {"a": "Nop"}, {"a": "Poll"}, {"a": "Reinsert", "k": v}]
+        else:
+            s += [{"a": "Nop"}, {"a": "Reinsert", "k": v}]
+        m = rng.randint(1, 4)
+        for _ in range(m):
+            s += [{"a": "Produce", "k": v}]
+        s += [{"a": "Wake", "k": v}]
+        for k in keys[1:]:
+            if rng.random() < 0.5:
+                s += [{"a": "Produce", "k": k}, {"a": "Wake", "k": k}]
+        for _ in range(m + 6):
+            s += [{"a": "Nop"}, {"a": "Poll"}]
+        s.append({"a": "Nop"})
+        out.append(s)
+    return out
+
+
 def random_scripts(rng, n, maxlen=120):
     """Model-free random walks with window activity (ops right after a Poll run inside the polled stream)."""
     out = []
@@ -211,7 +252,8 @@ def run_fq(chk, prefixes, nsim, nstarve, nrand, depth=300):
     for label, scripts in (("model", gen_behaviours(chk, nsim, depth, chk.seed)),
                            ("starve", starvation_scripts(rng, nstarve)),
                            ("random", random_scripts(rng, nrand)),
-                           ("hostile-env", hostile_env_scripts(rng, max(20, nstarve // 2)))):
+                           ("hostile-env", hostile_env_scripts(rng, max(20, nstarve // 2))),
+                           ("reconnect", reconnect_scripts(rng, max(40, nstarve)))):
         viols, st = replay_and_validate(chk, scripts, label)
         all_stats[label] = {k: v for k, v in st.items() if k != "out"}
         for sc in scripts:
